@@ -1388,7 +1388,7 @@ func (q *jQuery) dupAgg() bool {
 }
 
 // the cause suffix of a discrepancy: only the registered causes that CAN explain the failing oracle are considered
-// (`allow`, in order of precedence: '3' NOT IN lost, '1' frozen mixed conjunct, '2' qualifier ignored); J1 and J3 change
+// (`allow`, in the order given by the caller: '1' frozen mixed conjunct — its condition is OBSERVED (hash path taken) —, '3' NOT IN lost (repaired in /repo: be1e49d; the signature is no longer listed, so it is a violation if it returns), '2' qualifier ignored); J1 and J3 change
 // the set of rows, J2 only their order / the grouping
 func jCause(allow string, sides ...jSide) string {
 	for _, a := range allow {
@@ -1418,7 +1418,7 @@ func jCause(allow string, sides ...jSide) string {
 
 // causes that can make two executions return different bags (sizes under LIMIT)
 func (q *jQuery) rowSetCauses(samePredicates bool) string {
-	a := "31"
+	a := "13" // the frozen mixed conjunct (observed hash path) first: an empty answer is also what a lost negation would predict
 	if samePredicates { // same text up to hints / twin tables: the lost negation is lost on both sides
 		a = "1"
 	}
@@ -1690,12 +1690,12 @@ func (c *jCase) checkLimit(s jSide, want sqlQRes) {
 	for _, t := range got.rowToks() {
 		have[t]--
 		if have[t] < 0 {
-			c.r.Fail("C11:limit-offset:not-a-slice"+jCause("31", s), fmt.Sprintf("[%s] returns the row (%s) more often than the unlimited join holds it: %s", s.run.sql, t, sqlRowsShow(got.Rows, 12)), c.replay(s.run.sql, "", "limit"))
+			c.r.Fail("C11:limit-offset:not-a-slice"+jCause("13", s), fmt.Sprintf("[%s] returns the row (%s) more often than the unlimited join holds it: %s", s.run.sql, t, sqlRowsShow(got.Rows, 12)), c.replay(s.run.sql, "", "limit"))
 			return
 		}
 	}
 	if strings.Join(keys(got.Rows), ";") != strings.Join(keys(ref[lo:hi]), ";") {
-		c.r.Fail("C11:limit-offset:order-keys-differ"+jCause("312", s), fmt.Sprintf("[%s] => %s but the ORDER BY keys at these positions of the sorted reference result are %s", s.run.sql, sqlRowsShow(got.Rows, 12), strings.Join(keys(ref[lo:hi]), " ")),
+		c.r.Fail("C11:limit-offset:order-keys-differ"+jCause("132", s), fmt.Sprintf("[%s] => %s but the ORDER BY keys at these positions of the sorted reference result are %s", s.run.sql, sqlRowsShow(got.Rows, 12), strings.Join(keys(ref[lo:hi]), " ")),
 			c.replay(s.run.sql, "", "limit keys"))
 	}
 }
